@@ -15,7 +15,8 @@
 EXTENDS Naturals, Integers, Sequences, FiniteSets, TLC
 
 CONSTANTS Progs,        \* sequence of program records (JSON)
-          TrackWoken    \* BOOLEAN: model the poll/wake credit of tasks (needed for traces only)
+          TrackWoken,   \* BOOLEAN: model the poll/wake credit of tasks (needed for traces only)
+          SpuriousWakeups \* BOOLEAN: a parked task may return without an unpark
 
 Range(q) == {q[i] : i \in DOMAIN q}
 Max(a, b) == IF a > b THEN a ELSE b
@@ -162,7 +163,7 @@ CanComplete(s, t) ==
        [] o.k = "cv_wait" -> p \in {"relock", "relockwait"} /\ MFree(s, o.v)
        [] o.k = "read" -> RFits(s, o.o)
        [] o.k = "write" -> WFits(s, o.o)
-       [] o.k = "park" -> s.tok[t+1] \/ p = "parked"
+       [] o.k = "park" -> s.tok[t+1] \/ (p = "parked" /\ (s.unpk[t+1] \/ SpuriousWakeups))
        [] o.k = "send" -> LET c == s.ch[o.o+1] IN
                           IF p = "wait" THEN ~c.rxalive \/ (Head(c.waitS) = t /\ HeadSEnabled(c))
                           ELSE ~c.rxalive \/ ~MustBlockS(c)
@@ -209,6 +210,13 @@ Complete(s, t) ==
          (CASE g.k = "m" -> R(0, MRelease(b2, g.o))
             [] g.k = "r" -> R(0, RwAfterRelease([b2 EXCEPT !.rw[g.o+1].readers = @ \ {t}], g.o))
             [] g.k = "w" -> R(0, RwAfterRelease([b2 EXCEPT !.rw[g.o+1].writer = -1], g.o)))
+    [] o.k = "unlock_if" ->
+         LET g == s.gd[t+1][o.w+1]
+             b2 == [base EXCEPT !.gd[t+1][o.w+1] = NoGuard] IN
+         (CASE g.k = "none" -> R(0, base)
+            [] g.k = "m" -> R(1, MRelease(b2, g.o))
+            [] g.k = "r" -> R(1, RwAfterRelease([b2 EXCEPT !.rw[g.o+1].readers = @ \ {t}], g.o))
+            [] g.k = "w" -> R(1, RwAfterRelease([b2 EXCEPT !.rw[g.o+1].writer = -1], g.o)))
     [] o.k = "ginc" ->
          LET g == s.gd[t+1][o.w+1] IN
          (CASE g.k = "m" -> R(s.md[g.o+1] + 1, [base EXCEPT !.md[g.o+1] = @ + 1])
@@ -241,9 +249,10 @@ Complete(s, t) ==
     [] o.k = "park" -> IF p = "parked" THEN R(0, [base EXCEPT !.unpk[t+1] = FALSE])
                        ELSE R(0, [base EXCEPT !.tok[t+1] = FALSE])
     [] o.k = "unpark" ->
-         LET u == ChildId(s, o.v) IN
-         IF ~s.fin[u+1] /\ Ph(s, u) = "parked" /\ ~s.unpk[u+1] THEN R(0, [base EXCEPT !.unpk[u+1] = TRUE])
-         ELSE R(0, [base EXCEPT !.tok[u+1] = TRUE])
+         IF ~HasChild(s, o.v) THEN R(-1, base)
+         ELSE LET u == ChildId(s, o.v) IN
+              IF ~s.fin[u+1] /\ Ph(s, u) = "parked" /\ ~s.unpk[u+1] THEN R(0, [base EXCEPT !.unpk[u+1] = TRUE])
+              ELSE R(0, [base EXCEPT !.tok[u+1] = TRUE])
     \* ---- atomics (8-bit wrap-around; one indivisible step)
     [] o.k = "load" -> R(s.av[o.o+1], base)
     [] o.k = "store" -> R(0, [base EXCEPT !.av[o.o+1] = o.v % 256])
@@ -326,8 +335,7 @@ CanBlock(s, t) ==
        [] p = "relock" -> ~MFree(s, o.v)
        [] p \in {"wait", "relockwait"} -> s.xr[t+1] /\ ~CanComplete(s, t)
        [] p = "once_wait" -> s.once[o.o+1].owner = -1 \/ s.xr[t+1]
-       [] p = "once_in" -> TRUE
-       [] p = "once_body" -> TRUE
+       [] p \in {"once_lk", "once_in", "once_body"} -> TRUE
        [] OTHER -> FALSE
 
 Block(s, t) ==
@@ -344,10 +352,10 @@ Block(s, t) ==
            [] o.k = "send" -> [s EXCEPT !.ph[t+1] = "wait", !.ch[o.o+1].waitS = Append(@, t)]
            [] o.k \in {"recv", "try_recv"} -> [s EXCEPT !.ph[t+1] = "wait", !.ch[o.o+1].waitR = Append(@, t)]
            [] o.k = "barrier_wait" -> [s EXCEPT !.ph[t+1] = "wait", !.bar[o.o+1].arrived = @ \cup {t}]
-           [] o.k = "call_once" ->
-                IF s.once[o.o+1].owner = -1
-                THEN OnceAcquire(s, t, o.o)
-                ELSE EnterPollWait(s, t, "once_wait"))
+           \* not complete yet: the caller is now committed to go through the internal lock
+           [] o.k = "call_once" -> SetPh(s, t, "once_lk"))
+    [] p = "once_lk" ->
+         IF s.once[o.o+1].owner = -1 THEN OnceAcquire(s, t, o.o) ELSE EnterPollWait(s, t, "once_wait")
     [] p = "cvwait" -> SetPh(Consume(s, o.o, t), t, "relock")
     [] p = "relock" -> EnterPollWait(s, t, "relockwait")
     [] p \in {"wait", "relockwait"} -> Repoll(s, t)
@@ -373,7 +381,7 @@ Progress(s, t) ==
     [] p = "relockwait" -> MFree(s, o.v) \/ s.xr[t+1]
     [] p = "parked" -> s.unpk[t+1]
     [] p = "once_wait" -> s.once[o.o+1].owner = -1 \/ s.xr[t+1]
-    [] p \in {"once_in", "once_body", "once_skip", "once_fin"} -> TRUE
+    [] p \in {"once_lk", "once_in", "once_body", "once_skip", "once_fin"} -> TRUE
     [] OTHER -> FALSE
 
 MustOffer(s) == {t \in Live(s) : Progress(s, t)}
